@@ -22,12 +22,13 @@ def generate(ctx, sizes, quick):
     return allr
 
 
-def run_driver(ctx, replays, kv="memory", tag=""):
+def run_driver(ctx, replays, kv="memory", tag="", which="both"):
     drv = ctx.build("c05")
     rf = ctx.path("replays%s.jsonl" % tag)
     vlib.write_jsonl(rf, replays)
     o5, o6 = ctx.path("c05%s.ndjson" % tag), ctx.path("c06%s.ndjson" % tag)
     ctx.run([drv, "-replays", rf, "-out05", o5, "-out06", o6, "-kv", kv,
+             "-do05=%s" % ("true" if which in ("both", "05") else "false"), "-do06=%s" % ("true" if which in ("both", "06") else "false"),
              "-secring", os.path.join(vlib.REPO, "pkg/jsonsign/testdata/test-secring.gpg")], timeout=2400)
     return o5, o6
 
